@@ -74,6 +74,14 @@ func loadWorld(repoDir, libDir string, patterns []string, overlay map[string][]b
 	for _, p := range prog.AllPackages() {
 		w.TypesPkgs[p.Pkg.Path()] = p.Pkg
 	}
+	// contract files of dependencies inside the module are loaded too (their contracts are used at call sites)
+	packages.Visit(pkgs, nil, func(p *packages.Package) {
+		if strings.HasPrefix(p.PkgPath, modPath) && len(p.GoFiles) > 0 {
+			if _, ok := pkgDirs[p.PkgPath]; !ok {
+				pkgDirs[p.PkgPath] = filepath.Dir(p.GoFiles[0])
+			}
+		}
+	})
 	w.C, err = loadContracts(libDir, pkgDirs)
 	if err != nil {
 		return nil, err
